@@ -36,29 +36,40 @@ Nat0(S) == {v \in S : v >= 0} \cup {NONE}
 Vals(n) == Nat0(IF Rich THEN {0, 1, n - 1, n, n + 2} ELSE {0, n, n + 2})
 PassedVals(n) == Nat0(IF Rich THEN {0, 1, n - 1, n, n + 3} ELSE {n - 1, n + 3})
 MaxComboOf(m, sh) == CASE m = "osu" -> sh.d [] m = "taiko" -> sh.a [] m = "catch" -> sh.a + sh.b [] OTHER -> 0
-ComboVals(m, sh) == IF m = "mania" THEN {NONE} ELSE Nat0({0, MaxComboOf(m, sh) + 2} \cup (IF Rich THEN {MaxComboOf(m, sh) - 1} ELSE {}))
+ComboVals(m, sh) == Nat0({0, MaxComboOf(m, sh) - 1, MaxComboOf(m, sh) + 2})
 Origins(m) == CASE m = "osu" -> {"S", "L", "C"} [] m = "mania" -> {"S", "L"} [] OTHER -> {"S"}
 
-(* provided fields: main fields and misses range over Vals, extras jointly *)
+(* provided fields.  The space is the union of three aspects instead of one cross product:     *)
+(*   core    main hit results x misses                 (combo and the extras not provided)      *)
+(*   combo   combo x misses                            (main hit results not provided)          *)
+(*   extras  osu slider-end / tick hits, catch tiny droplets x misses (main not provided)       *)
 Provided(m, sh) ==
   LET n == NOf(m, sh)
       none == [f \in Fields |-> NONE]
       V == Vals(n)
       TV == Nat0({0, sh.c, sh.c + 1})
-      X == IF m = "osu" THEN {NONE, 0, sh.b + sh.c + 1} ELSE {NONE}
-  IN CASE m = "osu" ->
-            {[none EXCEPT !.n300 = q[1], !.n100 = q[2], !.n50 = q[3], !.miss = q[4], !.combo = q[5],
-                          !.ends = q[6], !.large = q[6], !.small = q[6]] :
-                q \in V \X V \X V \X V \X ComboVals(m, sh) \X X}
-       [] m = "taiko" ->
-            {[none EXCEPT !.n300 = q[1], !.n100 = q[2], !.miss = q[3], !.combo = q[4]] :
-                q \in V \X V \X V \X ComboVals(m, sh)}
-       [] m = "catch" ->
-            {[none EXCEPT !.n300 = q[1], !.n100 = q[2], !.miss = q[3], !.combo = q[4], !.n50 = q[5], !.katu = q[6]] :
-                q \in V \X V \X V \X ComboVals(m, sh) \X TV \X TV}
-       [] m = "mania" ->
-            {[none EXCEPT !.geki = q[1], !.n300 = q[2], !.katu = q[3], !.n100 = q[4], !.n50 = q[5], !.miss = q[6]] :
-                q \in V \X V \X V \X V \X V \X (IF Rich THEN V ELSE {NONE, 1})}
+      X == {NONE, 0, sh.b + sh.c + 1}
+      core ==
+        CASE m = "osu" ->
+               {[none EXCEPT !.n300 = q[1], !.n100 = q[2], !.n50 = q[3], !.miss = q[4]] : q \in V \X V \X V \X V}
+          [] m = "taiko" ->
+               {[none EXCEPT !.n300 = q[1], !.n100 = q[2], !.miss = q[3]] : q \in V \X V \X V}
+          [] m = "catch" ->
+               {[none EXCEPT !.n300 = q[1], !.n100 = q[2], !.miss = q[3]] : q \in V \X V \X V}
+          [] m = "mania" ->
+               {[none EXCEPT !.geki = q[1], !.n300 = q[2], !.katu = q[3], !.n100 = q[4], !.n50 = q[5], !.miss = q[6]] :
+                   q \in V \X V \X V \X V \X V \X (IF Rich THEN V ELSE {NONE, 1})}
+      combo == IF m = "mania" THEN {}
+               ELSE {[none EXCEPT !.combo = q[1], !.miss = q[2]] : q \in ComboVals(m, sh) \X V}
+      extras ==
+        CASE m = "osu" ->
+               {[none EXCEPT !.ends = q[1], !.large = q[2], !.small = q[3], !.miss = q[4], !.n100 = q[5]] :
+                   q \in X \X X \X X \X {NONE, 1} \X {NONE, 0}}
+          [] m = "catch" ->
+               {[none EXCEPT !.n50 = q[1], !.katu = q[2], !.miss = q[3], !.n300 = q[4]] :
+                   q \in TV \X TV \X {NONE, 1} \X {NONE, 1}}
+          [] OTHER -> {}
+  IN core \cup combo \cup extras
 
 (* all cases of one (mode, shape, passed): TLC computes initial states on one thread, so the   *)
 (* enumeration is split: root -> (mode, shape, passed) -> case, the second step runs in parallel *)
@@ -111,7 +122,8 @@ ReqStep == [][phase = "new" => Requirements(c, res')]_vars
 
 Scenario == [c |-> c, phase |-> phase,
              modelled |-> Modelled(c),
-             pred |-> IF phase = "new" /\ Modelled(c) THEN Gen(c) ELSE [ok |-> TRUE, r |-> ZeroRes]]
+             pred |-> IF phase = "new" /\ Modelled(c) THEN Gen(c) ELSE [ok |-> TRUE, r |-> ZeroRes],
+             flags |-> IF phase = "new" /\ Modelled(c) THEN ReqFlags(c, Gen(c).r) ELSE ReqFlags(c, ZeroRes)]
 
 Printer == phase = "new" => PrintT(<<"REPLAY", ToJson(Scenario)>>)
 
